@@ -141,3 +141,44 @@ package cluster
 //@   ensures [ports] result ==> pendingPorts(reservations, len(reservations)) + portsOfGrp(newReservation.resources) <= old(externalPortsAvailable)
 
 //@ property C12 := reservationCountEndpoints#*, reservationAdjustInventory#*, reservationAllocateable#*
+
+// ---- C12: commit-level scaling uses the level configured for each resource kind ----
+//@ import dtypes "github.com/ovrclk/akash/x/deployment/types"
+//@ extern atypes.(ResourceGroup).GetName(recv)
+//@   pure
+//@ extern atypes.(*ResourceUnits).GetCPU(m)
+//@   pure
+//@ extern atypes.(*ResourceUnits).GetMemory(m)
+//@   pure
+//@ extern atypes.(*ResourceUnits).GetStorage(m)
+//@   pure
+//@ extern atypes.(*ResourceUnits).GetEndpoints(m)
+//@   pure
+//@   ensures result == m.Endpoints
+//@ extern atypes.(*CPU).GetUnits(m)
+//@   pure
+//@ extern atypes.(*CPU).GetAttributes(m)
+//@   pure
+//@ extern atypes.(*Memory).GetQuantity(m)
+//@   pure
+//@ extern atypes.(*Memory).GetAttributes(m)
+//@   pure
+//@ extern atypes.(*Storage).GetQuantity(m)
+//@   pure
+//@ extern atypes.(*Storage).GetAttributes(m)
+//@   pure
+// the scaled copy of a request keeps each record's replica count and endpoints, and scales cpu / memory / storage by
+// the commit level of that kind
+//@ func (*inventoryService).committedResources
+//@   requires is != nil && !fresh(grpRes(rgroup))
+//@   modifies nothing
+//@   oncall util.ComputeCommittedResources 1 assert callarg0 == is.config.CPUCommitLevel
+//@   oncall util.ComputeCommittedResources 2 assert callarg0 == is.config.MemoryCommitLevel
+//@   oncall util.ComputeCommittedResources 3 assert callarg0 == is.config.StorageCommitLevel
+//@   loop 1 modifies replacedResources[**]
+//@   loop 1 invariant 0 <= iter && iter <= len(ranged) && len(replacedResources) == iter && len(replacedResources) <= cap(replacedResources) && fresh(replacedResources)
+//@   loop 1 invariant arr(replacedResources) == atloop(arr(replacedResources)) || freshloop(replacedResources)
+//@   loop 1 invariant [count] forall i: int {replacedResources[i].Count} :: 0 <= i && i < iter ==> replacedResources[i].Count == ranged[i].Count
+//@   loop 1 invariant [endpoints] forall i: int {replacedResources[i].Resources.Endpoints} :: 0 <= i && i < iter ==> replacedResources[i].Resources.Endpoints == ranged[i].Resources.Endpoints
+
+//@ property C12 := (*inventoryService).committedResources#*
